@@ -198,7 +198,11 @@ impl<VM: VMBinding> BumpAllocator<VM> {
             return Address::ZERO;
         }
 
-        let block_size = (size + BLOCK_MASK) & (!BLOCK_MASK);
+        // The block must hold the object and the padding needed to align it: the start of a
+        // new block is only page-aligned, so up to `align - MIN_ALIGNMENT` bytes may go in front.
+        let block_size = (crate::util::alloc::allocator::get_maximum_aligned_size::<VM>(size, align)
+            + BLOCK_MASK)
+            & (!BLOCK_MASK);
         let acquired_start = self.space.acquire(
             self.tls,
             bytes_to_pages_up(block_size),
